@@ -670,3 +670,10 @@ def oracle(lines, impl):
     if os.environ.get("CV_CALIBRATE"):
         print("[c13 calibrate] worst observed ratios to the a-priori bounds:", {k: float("%.4g" % v) for k, v in sorted(STATS.items())})
     return fails
+
+# --- deep theorems (2: inverse hypothesis discharged)
+PROOF_MODULES = PROOF_MODULES + ['Compute.Props.C01SolveApps']
+REQUIRED_THEOREMS = REQUIRED_THEOREMS + ['Cv.C01Solve.ar_fit_yule_walker_unconditional', 'Cv.C01Solve.ar_fit_total']
+_np = list(NOT_PROVED)
+_np = [('exactness of invert_matrix is no longer a hypothesis: Props/C01SolveApps proves the Yule-Walker equations of the fitted coefficients unconditionally for a non-singular Toeplitz matrix (exact arithmetic)' if 'invert_matrix' in str(x) else x) for x in _np]
+NOT_PROVED = [x for x in _np if x is not None]
